@@ -202,7 +202,7 @@ func goCheck(evs []event, outs []outc) (string, bool) {
 	fits := func(c, st int64) bool {
 		hi, lo := mul128(c+1, st)
 		hi2, lo2 := mul128(c, st)
-		return c < 1<<62 && c > -(1<<62) && hi == signExt(lo) && hi2 == signExt(lo2)
+		return c < 1<<62 && c > -(1<<62) && hi == signExt(lo) && hi2 == signExt(lo2) && int64(lo) != 1<<63-1
 	}
 	slots := map[int64]*slot{}
 	ids := map[int64]bool{}
